@@ -142,6 +142,10 @@ func runC01(c *Ctx) {
 	if p == nil {
 		return
 	}
+	// shared with C04/C09: Match computes its result from the input and the corpus alone - it writes nothing that a
+	// later (or concurrent) Match, or a document added afterwards, can observe. A list cached in the classifier or a
+	// package-level scratch object makes the copy of a later-added document, or of a call that overlaps another, go missing.
+	matchReadOnly(c, p, "R04.1")
 	ts := p.Func(v2pkg, "tokenizeStream")
 	if !c.R.Anchor(ts != nil, "v2.tokenizeStream") {
 		return
@@ -171,6 +175,35 @@ func runC01(c *Ctx) {
 	c.R.RequireMin("R01.1", "tokenizeStream call sites", n, 2)
 
 	// R01.2
+	checkThresholdAndQ(c, p)
+
+	checkRunDetectorQ(c, p)
+
+	// R01.3 inclusive acceptance
+	for _, lit := range licenseLiterals(p) {
+		conf := lit.fields["Confidence"]
+		incl := false
+		for _, f := range lit.facts() {
+			if cmp, ok := f.AsCmp(); ok {
+				if cmp.Op == token.GEQ && cmp.X == conf && isThresholdLoad(cmp.Y) {
+					incl = true
+				}
+				if cmp.Op == token.LEQ && cmp.Y == conf && isThresholdLoad(cmp.X) {
+					incl = true
+				}
+			}
+		}
+		c.R.Check(incl, "R01.3", core.ShortFn(lit.fn)+": the acceptance test is conf >= threshold (inclusive)", p.Pos(lit.alloc.Pos()),
+			"a candidate scoring exactly the threshold is kept", "the acceptance test is not `conf >= threshold`: at threshold 1.0 every exact copy (confidence exactly 1.0) is dropped")
+	}
+	tokenizerWindowRules(c, p)
+	spanLineRules(c, p)
+	checkContainmentTie(c, p)
+}
+
+// checkThresholdAndQ: R01.2. The threshold a caller configures is the one stored and compared with, q is derived from it,
+// neither changes after construction, and corpus and target search sets are built with that q.
+func checkThresholdAndQ(c *Ctx, p *core.Prog) {
 	nc := p.Func(v2pkg, "NewClassifier")
 	if c.R.Anchor(nc != nil, "v2.NewClassifier") {
 		rl := rolesOf(p)
@@ -207,28 +240,6 @@ func runC01(c *Ctx) {
 	}
 	c.R.RequireMin("R01.2", "generateSearchSet call sites", ng, 1)
 
-	checkRunDetectorQ(c, p)
-
-	// R01.3 inclusive acceptance
-	for _, lit := range licenseLiterals(p) {
-		conf := lit.fields["Confidence"]
-		incl := false
-		for _, f := range lit.facts() {
-			if cmp, ok := f.AsCmp(); ok {
-				if cmp.Op == token.GEQ && cmp.X == conf && isThresholdLoad(cmp.Y) {
-					incl = true
-				}
-				if cmp.Op == token.LEQ && cmp.Y == conf && isThresholdLoad(cmp.X) {
-					incl = true
-				}
-			}
-		}
-		c.R.Check(incl, "R01.3", core.ShortFn(lit.fn)+": the acceptance test is conf >= threshold (inclusive)", p.Pos(lit.alloc.Pos()),
-			"a candidate scoring exactly the threshold is kept", "the acceptance test is not `conf >= threshold`: at threshold 1.0 every exact copy (confidence exactly 1.0) is dropped")
-	}
-	tokenizerWindowRules(c, p)
-	spanLineRules(c, p)
-	checkContainmentTie(c, p)
 }
 
 // checkContainmentTie: R01.4. Two corpus documents with the same words (one text registered under two names, a user's
@@ -305,6 +316,16 @@ func runC02(c *Ctx) {
 	if p == nil {
 		return
 	}
+	// shared with C04: every reported (identity, confidence, span) comes from one corpus document and the input - Match
+	// keeps no state between documents or calls (R04.1), no map iteration order reaches the result (R04.4: a merge of
+	// candidates across documents pairs one document's identity with another's confidence), and the document K named by a
+	// match is the one that was added under that identity (R04.8: AddContent stores on every path).
+	if mfn, mex := matchReadOnly(c, p, "R04.1"); mfn != nil && mex != nil {
+		checkMapOrder(c, p, mfn, mex.Explored())
+	}
+	checkUnconditionalAdd(c, p)
+	// shared with C06: the line of a word that is assembled across a buffer refill (R06.3)
+	checkFlagsSurviveRefill(c, p)
 	sc := p.Func(v2pkg, "(*Classifier).score")
 	if !c.R.Anchor(sc != nil, "v2.(*Classifier).score") {
 		return
